@@ -1,0 +1,18 @@
+//! Simulation seam of the topology behaviour (feature `verif` only): every message the behaviour
+//! publishes is also copied to a thread-local outbox, from which a simulated bus delivers it to
+//! other nodes through `Behaviour::verif_deliver`.
+
+use std::cell::RefCell;
+
+thread_local! {
+    static OUTBOX: RefCell<Vec<(&'static str, Vec<u8>)>> = const { RefCell::new(Vec::new()) };
+}
+
+pub(crate) fn published(topic: &'static str, data: &[u8]) {
+    OUTBOX.with(|outbox| outbox.borrow_mut().push((topic, data.to_vec())));
+}
+
+/// Takes the messages published on this thread since the last call.
+pub fn take_outbox() -> Vec<(&'static str, Vec<u8>)> {
+    OUTBOX.with(|outbox| std::mem::take(&mut *outbox.borrow_mut()))
+}
